@@ -8,6 +8,8 @@ def run(pid, tier, seed, own):
     pool = engine.Pool()
     try:
         genprops.m1_generate(rep, tier)
+        if 'C08' in own:
+            genprops.spread_stage(rep, pool, tier)
         traces = genprops.collect(rep, pool, tier, seed, perturb=False, nseeds=1 if q else 6, maxn=2, rich=True,
                                   label='counts <= 2, rich optional domains')
         traces += genprops.collect(rep, pool, tier, seed + 1, perturb=False, nseeds=1 if q else 4, maxn=3, rich=False,
